@@ -1,6 +1,8 @@
 package main
 
 import (
+	"bufio"
+	"syscall"
 	"bytes"
 	"crypto/ed25519"
 	"crypto/rand"
@@ -300,6 +302,18 @@ func runStack(id string, toks []string) (res string) {
 			cc.frameSize = frameSize
 			cc.writeSeg = w.wseg
 			w.conns[p[1]] = cc
+		case "NS":
+			// NS:<a>:<b>  two connections that are open at the same time and have the SAME remote ip:port as the accessory
+			// sees them: both leave from one local ip:port, a goes to 127.0.0.1 and b to 127.0.0.2 (the accessory listens on
+			// every local address). a is connected first.
+			ca, cb, err := dialSharedSource(w.port)
+			if err != nil {
+				emit("NS=unsupported")
+				continue
+			}
+			ca.frameSize, cb.frameSize = frameSize, frameSize
+			w.conns[p[1]], w.conns[p[2]] = ca, cb
+			emit("NS=ok")
 		case "K":
 			if cc := w.conns[p[1]]; cc != nil {
 				cc.c.Close()
@@ -390,6 +404,8 @@ func runStack(id string, toks []string) (res string) {
 			} else {
 				emit(fmt.Sprintf("B=%d", r.status))
 			}
+		case "VR":
+			emit(w.verifyReplay(p[1], p[2]))
 		case "RACE":
 			emit(w.raceReads(p[1], p[2], p[3]))
 		case "G", "A", "P", "PM", "R", "X", "E":
@@ -957,4 +973,77 @@ func (w *world) raceReads(ca, cb, ns string) string {
 		return "RACE=ok"
 	}
 	return "RACE=" + res
+}
+
+// verifyReplay: VR:<ctrl>:<n>   a passive adversary recorded one genuine pair-verify of <ctrl> (start and finish travel
+// in plaintext) and replays the recorded start on n new connections; wherever the accessory answers with the public key
+// of the recorded exchange, the recorded finish is replayed too. The accessory's key must be fresh on every connection.
+func (w *world) verifyReplay(ctrl, ns string) string {
+	n, _ := strconv.Atoi(ns)
+	id := w.ident(ctrl)
+	cc0, err := dial(w.port)
+	if err != nil {
+		return "VR=noconn"
+	}
+	defer cc0.c.Close()
+	v := &verifyRun{cc: cc0}
+	if m, st, err := v.m1(nil, w.accLTPK); err != nil || st != 200 || len(m[tErr]) > 0 || v.sesKey == nil {
+		return "VR=genuine-start-failed"
+	}
+	mat := append(append(append([]byte{}, v.pub...), []byte(id.name)...), v.accPub...)
+	inner := tlvEncode([]tlvItem{{tName, []byte(id.name)}, {tSig, ed25519.Sign(id.priv, mat)}})
+	finish := []tlvItem{{tState, []byte{3}}, {tEnc, sealMsg(v.sesKey, "PV-Msg03", inner)}}
+	if m, st, err := v.post(finish); err != nil || st != 200 || len(m[tErr]) > 0 {
+		return "VR=genuine-finish-failed"
+	}
+	for i := 1; i <= n; i++ {
+		cc, err := dial(w.port)
+		if err != nil {
+			return fmt.Sprintf("VR=noconn@%d", i)
+		}
+		r := &verifyRun{cc: cc}
+		m, st, err := r.post([]tlvItem{{tState, []byte{1}}, {tPub, v.pub}})
+		if err == nil && st == 200 && bytes.Equal(m[tPub], v.accPub) {
+			m2, st2, err2 := r.post(finish)
+			cc.c.Close()
+			if err2 == nil && st2 == 200 && len(m2[tErr]) == 0 && len(m2[tState]) > 0 && m2[tState][0] == 4 {
+				return fmt.Sprintf("VR=replay-accepted@%d", i)
+			}
+			return fmt.Sprintf("VR=key-repeated@%d", i)
+		}
+		cc.c.Close()
+	}
+	return "VR=fresh"
+}
+
+func dialSharedSource(port int) (*ctlConn, *ctlConn, error) {
+	ctl := func(network, address string, c syscall.RawConn) error {
+		var e error
+		c.Control(func(fd uintptr) {
+			e = syscall.SetsockoptInt(int(fd), syscall.SOL_SOCKET, syscall.SO_REUSEADDR, 1)
+			if e == nil {
+				e = syscall.SetsockoptInt(int(fd), syscall.SOL_SOCKET, 15 /* SO_REUSEPORT */, 1)
+			}
+		})
+		return e
+	}
+	d1 := net.Dialer{Timeout: 2 * time.Second, Control: ctl, LocalAddr: &net.TCPAddr{IP: net.IPv4(127, 0, 0, 1), Port: 0}}
+	c1, err := d1.Dial("tcp", fmt.Sprintf("127.0.0.1:%d", port))
+	if err != nil {
+		return nil, nil, err
+	}
+	lp := c1.LocalAddr().(*net.TCPAddr).Port
+	d2 := net.Dialer{Timeout: 2 * time.Second, Control: ctl, LocalAddr: &net.TCPAddr{IP: net.IPv4(127, 0, 0, 1), Port: lp}}
+	c2, err := d2.Dial("tcp", fmt.Sprintf("127.0.0.2:%d", port))
+	if err != nil {
+		c1.Close()
+		return nil, nil, err
+	}
+	mk := func(c net.Conn) *ctlConn {
+		cc := &ctlConn{c: c}
+		cc.raw = bufio.NewReader(c)
+		cc.br = cc.raw
+		return cc
+	}
+	return mk(c1), mk(c2), nil
 }
